@@ -19,7 +19,8 @@ RULE = ("every model of C13's lattice families (all point sequences over {0..3} 
         "criterion and with every k of its range forced through the intercepted criterion; oracle: distances to ALL training "
         "samples, every valid choice of the best_k nearest under distance ties, density from the "
         "stored constant and range, acceptable = (label, cluster) of any chosen neighbour "
-        "attaining max min(cost, density); non-trivial = more than one valid neighbour choice, "
+        "attaining max min(cost, density); Fortran / transposed layouts and calls after an interrupted "
+        "predict for the 2-D family; non-trivial = more than one valid neighbour choice, "
         "or more than one acceptable outcome, or batch position < n")
 ASSUMPTIONS = [
     "the model's stored constant, density range, costs and labels are taken as given (C12/C13 judge them)",
